@@ -2,7 +2,15 @@
 
 package main
 
-// Stream-level yield points (Stdin.Read / Write / Close ...) belong to the C01/C02
-// hook in builtins/pipes/streams (one global callback slot). Installed here when
-// that hook is present in the tree.
-func c03InstallStreamYield(fn func(site string)) {}
+import "github.com/lmorg/murex/builtins/pipes/streams"
+
+// Stream-level yield points (before every atomic action of streams.Stdin: Read / Write /
+// Open / Close / ReadAll / GetDataType ...) come from the C01/C02 hook in
+// builtins/pipes/streams (verif_hook.go; one global callback slot, free in this binary).
+func c03InstallStreamYield(fn func(site string)) {
+	if fn == nil {
+		streams.VerifSetYield(nil)
+		return
+	}
+	streams.VerifSetYield(func(_ *streams.Stdin, point string) { fn("stream." + point) })
+}
